@@ -587,7 +587,7 @@ func parenNud(p *parser, t *token) *token {
 }
 
 func notNud(p *parser, t *token) *token {
-	expr := p.doExpression(getSymbol(t).Lbp)
+	expr := p.doExpression(130) // unary operators bind tighter than any binary operator
 	t.Append(expr)
 	return t
 }
@@ -698,11 +698,11 @@ func init() {
 		"==": {Lbp: 60, Led: ledInfix},
 		"!=": {Lbp: 60, Led: ledInfix},
 
-		"|":  {Lbp: 70, Led: ledInfix},
-		"^":  {Lbp: 80, Led: ledInfix, Nud: complementNud},
-		"&":  {Lbp: 90, Nud: skipNud, Led: ledInfix},
-		"<<": {Lbp: 100, Led: ledInfix},
-		">>": {Lbp: 100, Led: ledInfix},
+		"|":  {Lbp: 110, Led: ledInfix},
+		"^":  {Lbp: 110, Led: ledInfix, Nud: complementNud},
+		"&":  {Lbp: 120, Nud: skipNud, Led: ledInfix},
+		"<<": {Lbp: 120, Led: ledInfix},
+		">>": {Lbp: 120, Led: ledInfix},
 
 		"+": {Lbp: 110, Led: ledInfix},
 		"-": {Lbp: 110, Led: ledInfix, Nud: negateNud},
